@@ -10,6 +10,7 @@ from ..core import Clause, close
 from ..strategies import finite
 from . import _img as I
 
+FUZZ = ["history"]
 RULE = ("A history = constructor arguments + a generated list of operations (birth_range / pers_range / pixel_size assignment, fit on one "
         "diagram or a list, skew either way, and two STATE-DEPENDENT operations resolved at run time: pixel_size := current extent / k, range := lo + m * current pixel_size) interpreted against the real object; the invariant is evaluated after construction and after "
         "EVERY operation, the post-condition after the operation it concerns. Values come from a table of decimals whose quotients are "
